@@ -90,9 +90,17 @@ func wrongURI(method, wire string, variant int) string {
 			cand = wire + "/trackID=0"
 		}
 	case 5:
-		cand = "/other"
+		// another path in abs_path form, or nothing but the server root (a prefix of every URL)
+		if strings.HasSuffix(wire, "0") {
+			cand = "/other"
+		} else {
+			cand = "rtsp://10.0.0.1:8554/"
+		}
 	case 6:
-		if strings.Contains(wire, "?") {
+		// the query stripped (a prefix) or another query
+		if i := strings.IndexByte(wire, '?'); i >= 0 && method != "SETUP" {
+			cand = wire[:i]
+		} else if i >= 0 {
 			cand = wire + "&z=1"
 		} else {
 			cand = wire + "?z=1"
@@ -311,12 +319,34 @@ func runC(t *testing.T, sc Scenario) *core.Result {
 					fURI, cURI = absPath(wire), absPath(wire)
 				}
 				fAlg, cAlg := scheme, scheme
+				tamper := 0
 				build := func() string {
 					if scheme == mBasic {
 						return basicCredentials(fUser, pass)
 					}
-					return digestFields{User: fUser, Realm: fRealm, Nonce: fNonce, URI: fURI, Alg: fAlg, AlgForm: st.AlgForm,
-						Response: digestResponse(cAlg, cUser, cRealm, pass, cNonce, cMethod, cURI)}.header()
+					resp := digestResponse(cAlg, cUser, cRealm, pass, cNonce, cMethod, cURI)
+					flip := func(i int) {
+						b := []byte(resp)
+						if b[i] == '0' {
+							b[i] = '1'
+						} else {
+							b[i] = '0'
+						}
+						resp = string(b)
+					}
+					switch tamper {
+					case 1:
+						flip(len(resp) - 1)
+					case 2:
+						flip(0)
+					case 3:
+						flip(len(resp) / 2)
+					case 4:
+						resp = resp[:len(resp)-1]
+					case 5:
+						resp += "0"
+					}
+					return digestFields{User: fUser, Realm: fRealm, Nonce: fNonce, URI: fURI, Alg: fAlg, AlgForm: st.AlgForm, Response: resp}.header()
 				}
 				valid = build()
 				if st.Cred != "perturb" {
@@ -397,6 +427,9 @@ func runC(t *testing.T, sc Scenario) *core.Result {
 					wu := wrongURI(st.Method, wire, st.Variant)
 					fURI, cURI = apply(wire, wu)
 					desc = fmt.Sprintf("uri %q instead of %q (%s)", wu, wire, mode)
+				case "response":
+					tamper = st.Variant%5 + 1
+					desc = fmt.Sprintf("response digest tampered (variant %d)", tamper)
 				case "scheme":
 					desc = fmt.Sprintf("valid %s credentials although only %v are enabled", schemeName(scheme), schemeList(sc.Methods))
 				}
